@@ -135,13 +135,14 @@ func (p *ctxPool) Put(c any) {
 }
 
 type fxPlan struct {
-	fx     *space.Fixture
-	orig   *space.Node
-	pool   ctxPool
-	nSites int
-	nSpine int
-	filter func(l *Layout, root *space.Node) func(n *space.Node, path []int) bool
-	spineF func(l *Layout, root *space.Node) func(n *space.Node, path []int) bool
+	fx       *space.Fixture
+	orig     *space.Node
+	pool     ctxPool
+	nSites   int
+	nSpine   int
+	labelled []bool // per d=1 site: the header is a labelled component/container (explored first)
+	filter   func(l *Layout, root *space.Node) func(n *space.Node, path []int) bool
+	spineF   func(l *Layout, root *space.Node) func(n *space.Node, path []int) bool
 }
 
 // newPlan: spineTx = number of leading transactions whose spine takes part in d=2;
@@ -276,6 +277,10 @@ func newPlan(fx *space.Fixture, spineTx, repeatMax int, d1Spine bool) (*fxPlan, 
 	}
 	c := p.pool.Get().(*fxCtx)
 	p.nSites, p.nSpine = len(c.sites), len(c.spine)
+	p.labelled = make([]bool, len(c.sites))
+	for i, st := range c.sites {
+		p.labelled[i] = !strings.HasPrefix(c.lay.RoleAt(c.root, st.Path), "in-")
+	}
 	p.pool.Put(c)
 	return p, nil
 }
@@ -320,9 +325,15 @@ func enumerate(c *vlib.Check, plans []*fxPlan, d2mode int, deadline time.Time, h
 	}
 	var shards []shard
 	// simplest first: all d1 shards (small fixtures first as given), then d2
-	for _, p := range plans {
-		for i := 0; i < p.nSites; i++ {
-			shards = append(shards, shard{p, i, false})
+	// labelled headers (containers and components on the path the property reads) of every
+	// artefact first, then the headers deep inside items
+	for _, lab := range []bool{true, false} {
+		for _, p := range plans {
+			for i := 0; i < p.nSites; i++ {
+				if p.labelled[i] == lab {
+					shards = append(shards, shard{p, i, false})
+				}
+			}
 		}
 	}
 	if doD2 {
